@@ -15,8 +15,7 @@ package runner
 //     (the sender really was blocked until then);
 //   - an acquire is logged after it happened, a release before it happens.
 // With VERIF_YIELD=<seed> the hooks inject runtime.Gosched / short sleeps chosen by a stateless hash of
-// (seed, site, action name) to widen the explored schedules
-// (longer sleeps directly after a decrement of a pending counter). Neither variable set: the hooks only test two
+// (seed, site, action name) to widen the explored schedules. Neither variable set: the hooks only test two
 // booleans that are written once during package initialisation (no synchronisation is added, so a -race
 // build observes the scheduler's own synchronisation only).
 
@@ -115,10 +114,6 @@ func verifYield(site int, a action) {
 	h := fnv.New64a()
 	fmt.Fprintf(h, "%d/%d/%s", verifSeedVal, site, verifName(a))
 	v := h.Sum64()
-	if site == 9 && v%4 == 0 {
-		time.Sleep(time.Duration((v>>8)%20000) * time.Microsecond)
-		return
-	}
 	switch v % 8 {
 	case 4, 5:
 		runtime.Gosched()
@@ -331,27 +326,38 @@ func verifDecBegin(a, t action) {
 		return
 	}
 	if verifYieldOn && verifProcs > 1 && verifPending(t) == 2 {
-		g, _ := verifGates.LoadOrStore(t, new(int32))
-		c := g.(*int32)
-		if atomic.AddInt32(c, 1) == 1 {
-			// first at the gate: spin until the other one arrives (bounded)
-			deadline := time.Now().Add(200 * time.Microsecond)
-			for i := 0; atomic.LoadInt32(c) < 2; i++ {
-				if i&255 == 255 {
+		gi, _ := verifGates.LoadOrStore(t, new(verifGate))
+		g := gi.(*verifGate)
+		if atomic.AddInt32(&g.arrived, 1) == 1 {
+			// first of the last two: wait (yielding; the trigger cannot start before the other one has arrived
+			// anyway) until the other one is at the gate, tell it, then spin until it opens the gate
+			deadline := time.Now().Add(30 * time.Millisecond)
+			for i := 0; atomic.LoadInt32(&g.arrived) < 2; i++ {
+				runtime.Gosched()
+				if i&15 == 15 {
 					if !time.Now().Before(deadline) {
-						break
+						return
 					}
-					runtime.Gosched()
+					time.Sleep(20 * time.Microsecond)
 				}
 			}
-		} else {
-			// second: a small varying delay, so that different alignments of the two decrements are explored
-			for i := atomic.AddUint32(&verifSkew, 7) % 96; i > 0; i-- {
-				atomic.LoadInt32(c)
+			atomic.StoreInt32(&g.ack, 1)
+			for i := 0; atomic.LoadInt32(&g.open) == 0 && i < 200000; i++ {
 			}
+		} else {
+			// second: wait until the first one spins on the gate, then a small varying delay (so that different
+			// alignments of the two decrements are explored), open the gate
+			for i := 0; atomic.LoadInt32(&g.ack) == 0 && i < 200000; i++ {
+			}
+			for i := atomic.AddUint32(&verifSkew, 7) % 64; i > 0; i-- {
+				atomic.LoadInt32(&g.ack)
+			}
+			atomic.StoreInt32(&g.open, 1)
 		}
 	}
 }
+
+type verifGate struct{ arrived, ack, open int32 }
 
 var (
 	verifGates sync.Map
